@@ -573,16 +573,25 @@ def model_check(ev, tier, work, vd):
     FB_INV = ["Refines", "ReadRefines", "NoScribble", "BlockMapping"]
     EM_INV = ["Structural", "MapUpdatedExactlyAt", "PunchExact"]
     q = tier == "quick"
+    # Every configuration is sized from measurements (each run alone, 4 workers, machine under load 40-60; 2026-09-29):
+    #   FileData 2 files / 6 cuts / 3 ops   479 315 distinct, 5.3 M generated, 112 s      (2 / 7 / 3: 1.32 M, 15.6 M, 379 s;
+    #   FileData 1 file / 7 cuts / 4 ops    385 894 distinct, 9.8 M generated,  88 s       2 / 7 / 4 does not finish: > 36 M distinct after 50 min)
+    #   FileBuf 7 cuts / 4 ops              196 675 distinct, 1.4 M generated,  64 s
+    #   ExtentMap L4 P4 C1                  228 273 distinct, 11.4 M generated, 65 s      (L4 P5: 1.16 M, 65 M, 470 s)
+    #   ExtentMap L5 P5 C2                  120 260 distinct, 6.3 M generated,  77 s      (L5 P7 C2: no result in 300 s)
+    #   IndMap ND3 A3, 1 punch              3 784 distinct, 3 s                           (2 punches: no result in 300 s)
     runs = [   # module, spec, constants, invariants, properties, simulate, expect_violation
-        ("FileData", "ASpec", dict(NFiles=2, NCuts=5 if q else 7, MaxOps=3 if q else 4), FD_INV, ["Frame"], None, False),
+        ("FileData", "ASpec", dict(NFiles=2, NCuts=5 if q else 6, MaxOps=3), FD_INV, ["Frame"], None, False),
         ("FileBuf", "Spec", dict(NFiles=1, NCuts=7, MaxOps=3 if q else 4, CPB=2, DevSetSizeStaleBuffer="FALSE"), FB_INV, [], None, False),
         ("FileBuf", "Spec", dict(NFiles=1, NCuts=7, MaxOps=20, CPB=2, DevSetSizeStaleBuffer="FALSE"), FB_INV, [], 500 if q else 8000, False),
         ("FileBuf", "Spec", dict(NFiles=1, NCuts=7, MaxOps=4, CPB=2, DevSetSizeStaleBuffer="TRUE"), FB_INV, [], None, True),
-        ("ExtentMap", "ESpec", dict(MaxL=3 if q else 4, MaxP=3 if q else 5, MaxLenInit=4, MaxLenUninit=3, C=1, Inf=99, DevEmptyUnmap="FALSE"), EM_INV, [], None, False),
+        ("ExtentMap", "ESpec", dict(MaxL=3 if q else 4, MaxP=3 if q else 4, MaxLenInit=4, MaxLenUninit=3, C=1, Inf=99, DevEmptyUnmap="FALSE"), EM_INV, [], None, False),
         ("ExtentMap", "ESpec", dict(MaxL=3, MaxP=3, MaxLenInit=4, MaxLenUninit=3, C=1, Inf=99, DevEmptyUnmap="TRUE"), EM_INV, [], None, True),
         ("IndMap", "ISpec", dict(ND=2, A=2, Inf=9999, DevIndPunchRange="FALSE", MaxPunches=2), ["MapUpdatedExactly"], [], None, False),
         ("IndMap", "ISpec", dict(ND=2, A=2, Inf=9999, DevIndPunchRange="TRUE", MaxPunches=1), ["MapUpdatedExactly"], [], None, True),
     ]
+    if not q:       # one file, the full 7 cut points of the conformance runs, one operation deeper
+        runs.append(("FileData", "ASpec", dict(NFiles=1, NCuts=7, MaxOps=4), FD_INV, ["Frame"], None, False))
     # space accounting: the allocation protocols keep every unit in exactly one place, in memory and on disk after close; the
     # protocols are instances of the relations conjoined with the trace lines (RefinesRelations); each named deviation alone
     # must break an invariant, and the conformance configuration (DevFallocLeak on) still refines the relations
@@ -595,12 +604,17 @@ def model_check(ev, tier, work, vd):
     runs.append(("SpaceAcct", "SSpec", sa(DevWriteLeak=1), ["NoLeak"], [], None, True))
     runs.append(("SpaceAcct", "SSpec", sa(DevRangeNotDirty=1), ["DiskRecorded"], [], None, True))
     if not q:
-        runs.append(("ExtentMap", "ESpec", dict(MaxL=5, MaxP=7, MaxLenInit=4, MaxLenUninit=3, C=2, Inf=99, DevEmptyUnmap="FALSE"), EM_INV, [], None, False))
+        runs.append(("ExtentMap", "ESpec", dict(MaxL=5, MaxP=5, MaxLenInit=4, MaxLenUninit=3, C=2, Inf=99, DevEmptyUnmap="FALSE"), EM_INV, [], None, False))
         runs.append(("IndMap", "ISpec", dict(ND=3, A=3, Inf=9999, DevIndPunchRange="FALSE", MaxPunches=1), ["MapUpdatedExactly"], [], None, False))
+    ev.cov["model_checking_bounds"] = ("exhaustive BFS within the constants of each tlc_runs label (no state constraint): " +
+        ("FileData 2 files x 5 cuts x 3 operations; FileBuf 7 cuts x 3 operations (+ 500 random walks of depth 20); ExtentMap L3 P3; IndMap ND2 A2 x 2 punches; SpaceAcct 6 units"
+         if q else
+         "FileData 2 files x 6 cuts x 3 operations and 1 file x 7 cuts x 4 operations (2 files x 7 cuts x 4 operations does not finish: > 36 M distinct states after 50 min); "
+         "FileBuf 7 cuts x 4 operations (+ 8000 random walks of depth 20); ExtentMap L4 P4 C1 and L5 P5 C2; IndMap ND2 A2 x 2 punches and ND3 A3 x 1 punch; SpaceAcct 7 units"))
     for n, (mod, spec, consts, invs, props, sim, expect_viol) in enumerate(runs):
         cfg = os.path.join(work, "MC_%s_%d.cfg" % (mod, n))
         T.write_cfg(cfg, spec=spec, constants=consts, invariants=invs, properties=props)
-        r = T.tlc(os.path.join(SPEC, mod + ".tla"), cfg, workers=4, timeout=3000, xmx="4g", simulate=sim, depth=21 if sim else None)
+        r = T.tlc(os.path.join(SPEC, mod + ".tla"), cfg, workers=4, timeout=300 if q else 900, xmx="4g", simulate=sim, depth=21 if sim else None)
         if sim:
             m = re.search(r"The number of states generated: (\d+)", r.out)
             r.generated = int(m.group(1)) if m else 0
